@@ -29,10 +29,20 @@ type Obs struct {
 	Txs  []string `json:"txs,omitempty"`
 }
 
+// FirstExec records the arguments of the first execution of a block on an instance, so that a
+// re-execution offers exactly the same block again (same height, time stamp and previous root).
+type FirstExec struct {
+	Height   uint64 `json:"height"`
+	TimeMs   int64  `json:"time_ms"`
+	PrevRoot []byte `json:"prev_root"`
+}
+
 // Resume is the driver state carried across a reopen (and across child processes).
 type Resume struct {
-	Height   uint64 `json:"height"`
-	PrevRoot []byte `json:"prev_root"`
+	Height   uint64            `json:"height"`
+	PrevRoot []byte            `json:"prev_root"`
+	LastMs   int64             `json:"last_ms"` // time stamp of the last block offered (unix ms); never runs backwards
+	First    map[int]FirstExec `json:"first,omitempty"`
 }
 
 var genesisTime = time.Unix(1_700_000_000, 0).UTC()
@@ -63,23 +73,45 @@ func runSegment(ctx context.Context, ex *kv.KVExecutor, blocks []Block, ops []Op
 		case "init":
 			root, _, err := ex.InitChain(ctx, genesisTime, 1, chainID)
 			o.Root, o.Err = root, errStr(err)
+			if err == nil && rs.Height == 0 && rs.PrevRoot == nil {
+				// the chain starts from the genesis root
+				rs.PrevRoot = root
+			}
 		case "exec", "reexec", "observe":
 			var txs [][]byte
-			ts := genesisTime
 			if op.K != "observe" {
 				for _, t := range blocks[op.B].Txs {
 					txs = append(txs, []byte(t))
 				}
-				ts = blockTime(op.B)
 			}
-			h := rs.Height + 1
-			if op.K == "reexec" {
-				h = rs.Height
+			if rs.LastMs == 0 {
+				rs.LastMs = genesisTime.UnixMilli()
 			}
-			root, _, err := ex.ExecuteTxs(ctx, txs, h, ts, rs.PrevRoot)
+			// a new block: next height, a time stamp after every earlier one (block B carries the same time on both
+			// instances, an empty observation block comes 1 ms after its predecessor), on top of the last returned root
+			a := FirstExec{Height: rs.Height + 1, TimeMs: rs.LastMs + 1, PrevRoot: rs.PrevRoot}
+			if op.K == "exec" {
+				if t := blockTime(op.B).UnixMilli(); t > a.TimeMs {
+					a.TimeMs = t
+				}
+			}
+			first, again := rs.First[op.B]
+			if op.K == "reexec" && again {
+				// the very same block once more
+				a = first
+			}
+			root, _, err := ex.ExecuteTxs(ctx, txs, a.Height, time.UnixMilli(a.TimeMs).UTC(), a.PrevRoot)
 			o.Root, o.Err = root, errStr(err)
-			if err == nil {
-				rs.Height, rs.PrevRoot = h, root
+			if err == nil && !(op.K == "reexec" && again) {
+				rs.Height, rs.PrevRoot, rs.LastMs = a.Height, root, a.TimeMs
+				if op.K != "observe" {
+					if rs.First == nil {
+						rs.First = map[int]FirstExec{}
+					}
+					if _, ok := rs.First[op.B]; !ok {
+						rs.First[op.B] = a
+					}
+				}
 			}
 		case "setfinal":
 			o.Err = errStr(ex.SetFinal(ctx, op.H))
@@ -208,6 +240,55 @@ func childSegment(args []string) int {
 
 var errWatchdog = errors.New("child watchdog")
 
+// childDied reports a child process that ended without delivering its result.
+type childDied struct {
+	seg    int
+	err    error
+	stderr string
+}
+
+func (c *childDied) Error() string {
+	return fmt.Sprintf("child segment %d: %v: %s", c.seg, c.err, c.stderr)
+}
+
+// crashed says whether the child left the trace of a Go panic or fatal error of the code it ran (as opposed to
+// being killed from outside or running out of memory).
+func (c *childDied) crashed() bool {
+	return (strings.Contains(c.stderr, "panic:") || strings.Contains(c.stderr, "fatal error:")) && !strings.Contains(c.stderr, "out of memory")
+}
+
+// tailBuf keeps the last few KiB written to it.
+type tailBuf struct {
+	mu sync.Mutex
+	b  []byte
+}
+
+func (t *tailBuf) Write(p []byte) (int, error) {
+	t.mu.Lock()
+	defer t.mu.Unlock()
+	t.b = append(t.b, p...)
+	if len(t.b) > 8192 {
+		t.b = t.b[len(t.b)-6144:]
+	}
+	return len(p), nil
+}
+
+func (t *tailBuf) String() string {
+	t.mu.Lock()
+	defer t.mu.Unlock()
+	return string(t.b)
+}
+
+// environmental says whether an error text names trouble of the machine rather than behaviour of the executor.
+func environmental(msg string) bool {
+	for _, s := range []string{"Cannot acquire directory lock", "too many open files", "no space left on device", "cannot allocate memory", "resource temporarily unavailable", "out of memory"} {
+		if strings.Contains(msg, s) {
+			return true
+		}
+	}
+	return false
+}
+
 // openAfterUncleanExit opens an executor whose previous process ended without closing Badger
 // (the only way this type can be stopped). Badger v4.5.1 deletes a flushed write-ahead file by
 // truncate(0) + remove; a process that ends between the two leaves a zero-length NNNNN.mem, and the
@@ -223,10 +304,21 @@ func openAfterUncleanExit(dir, sub string) (*kv.KVExecutor, bool, error) {
 	return ex, false, err
 }
 
+// runInChildrenFrom is runInChildren for an instance that already has a past (driver state rs); it also
+// returns the driver state at the end.
+func runInChildrenFrom(dir, sub string, blocks []Block, ops []Op, rs Resume) ([]Obs, Resume, int, error) {
+	obs, out, _, retries, err := runInChildrenRS(dir, sub, blocks, ops, rs)
+	return obs, out, retries, err
+}
+
 func runInChildren(dir, sub string, blocks []Block, ops []Op) ([]Obs, int, int, error) {
+	obs, _, segs, retries, err := runInChildrenRS(dir, sub, blocks, ops, Resume{})
+	return obs, segs, retries, err
+}
+
+func runInChildrenRS(dir, sub string, blocks []Block, ops []Op, rs Resume) ([]Obs, Resume, int, int, error) {
 	var all []Obs
 	retries := 0
-	rs := Resume{}
 	next, segs := 0, 0
 	for next < len(ops) {
 		job := childJob{Dir: dir, Sub: sub, Blocks: blocks, Ops: ops, Start: next, Resume: rs}
@@ -234,11 +326,12 @@ func runInChildren(dir, sub string, blocks []Block, ops []Op) ([]Obs, int, int, 
 		jf := filepath.Join(dir, sub+"-job-"+strconv.Itoa(segs)+".json")
 		of := filepath.Join(dir, sub+"-out-"+strconv.Itoa(segs)+".json")
 		if err := os.WriteFile(jf, jb, 0o644); err != nil {
-			return all, segs, retries, err
+			return all, rs, segs, retries, err
 		}
 		ctx, cancel := context.WithTimeout(context.Background(), 120*time.Second)
 		cmd := exec.CommandContext(ctx, vk.SelfExe(), "child", "c15-segment", jf, of)
-		cmd.Stdout, cmd.Stderr = nil, nil
+		var stderr tailBuf
+		cmd.Stdout, cmd.Stderr = nil, &stderr
 		forkMu.Lock()
 		err := cmd.Start()
 		forkMu.Unlock()
@@ -248,26 +341,27 @@ func runInChildren(dir, sub string, blocks []Block, ops []Op) ([]Obs, int, int, 
 		timedOut := ctx.Err() != nil
 		cancel()
 		if timedOut {
-			return all, segs, retries, errWatchdog
+			return all, rs, segs, retries, errWatchdog
 		}
 		if err != nil {
-			return all, segs, retries, fmt.Errorf("child segment %d: %w", segs, err)
+			// a child that died: the code under test crashed (its stack is on stderr) or the environment killed it
+			return all, rs, segs, retries, &childDied{seg: segs, err: err, stderr: stderr.String()}
 		}
 		ob, err := os.ReadFile(of)
 		if err != nil {
-			return all, segs, retries, err
+			return all, rs, segs, retries, err
 		}
 		var out childOut
 		if err := json.Unmarshal(ob, &out); err != nil {
-			return all, segs, retries, err
+			return all, rs, segs, retries, err
 		}
 		if out.Err != "" {
-			return all, segs, retries, errors.New(out.Err)
+			return all, rs, segs, retries, errors.New(out.Err)
 		}
 		all = append(all, out.Obs...)
 		retries += out.OpenRetries
 		next, rs = out.Next, out.Resume
 		segs++
 	}
-	return all, segs, retries, nil
+	return all, rs, segs, retries, nil
 }
